@@ -1249,6 +1249,14 @@ def deep_step_start(ctx):
 
 def deep_step_finish(ctx, thms, fut):
     res, bad, raw = fut.result()
+    for _attempt in range(2):
+        if not any(t == "<compile>" for t, _ in bad):
+            break
+        # the coqc process did not run to completion (killed or timed out on an overloaded machine): once more, alone
+        ctx.count("retries:print-assumptions-process-did-not-complete")
+        time.sleep(5)
+        res, bad, raw = core.assumptions(os.path.join(ctx.work, "deep%d" % _attempt), "C09.DeepProperties", thms,
+                                         core.ALLOW_INTERVAL, timeout=1500)
     ctx.checker_cmds.append("coqc Print Assumptions <each theorem of C09/DeepProperties.v>")
     badthm = set(t for t, _ in bad)
     axs = set()
